@@ -7,6 +7,7 @@ and the shape of every `while` loop.  Termination of the outer fixpoint is NOT d
 from __future__ import annotations
 
 import ast
+import os
 import re
 from typing import Optional
 
@@ -394,6 +395,27 @@ def r_mypy(ck: Checker) -> None:
     from ..mypy_bridge import build
 
     ti = build(ck.prg.src)
+    inlined = [m for m in ck.prg.modules.values() if getattr(m.tree, "ngosa_temps_inlined", 0)]
+    if inlined and ti.errors:
+        from ..nform import normal_form
+
+        # a test moved into a temporary (`t = x is not None; if t:`) is the same program, but mypy does not narrow through
+        # it: type-check the condition normal form of those modules instead (scratch copy, removed at once)
+        import shutil
+        import tempfile
+
+        root = tempfile.mkdtemp(prefix="ngosa-mypy-")
+        try:
+            shutil.copytree(os.path.join(ck.prg.src, "ngo"), os.path.join(root, "ngo"), ignore=shutil.ignore_patterns("__pycache__"))
+            for m in inlined:
+                with open(os.path.join(root, os.path.relpath(m.path, ck.prg.src)), "w", encoding="utf-8") as fh:
+                    fh.write(ast.unparse(normal_form(ast.parse(m.source))) + "\n")
+            alt = build(root, fresh=True)
+        finally:
+            shutil.rmtree(root, ignore_errors=True)
+        files = {os.path.relpath(m.path, ck.prg.src) for m in inlined}
+        merged = [e for e in ti.errors if e[0] not in files] + [e for e in alt.errors if e[0] in files]
+        ti = type("TI", (), {"errors": merged, "types": ti.types})()  # type: ignore[assignment]
     runtime = {"union-attr", "attr-defined", "call-arg", "arg-type", "index", "operator", "name-defined", "call-overload", "misc", "return-value", "assignment", "var-annotated"}
     hard = {"union-attr", "attr-defined", "call-arg", "index", "operator", "name-defined"}  # arg-type is suppressed by `# type: ignore` pragmas in the tree: comment-only edits must stay neutral
     errs = [e for e in ti.errors if e[2] in hard]
